@@ -209,8 +209,10 @@ def update_state(elasticTrialStrain, stateOld, dt, props, hardening_model):
     # The residual cannot be reduced below its change over one floating point spacing of eqps. With a
     # steep rate sensitivity on top of a large accumulated plastic strain that change exceeds r_tol, and
     # without a step tolerance the root finder ran out of iterations and returned NaN. Stop when the
-    # bracket has shrunk to the spacing of eqps.
-    settings = ScalarRootFind.get_settings(x_tol=2.0*np.finfo(np.float64).eps*ub, r_tol=r_tol)
+    # bracket has shrunk to the spacing of eqps. Pure bisection needs 52 halvings to get there from a bracket
+    # that starts at eqpsOld = 0 (tiny plastic increment of a rate sensitive material just above yield),
+    # more than the default iteration budget.
+    settings = ScalarRootFind.get_settings(max_iters=100, x_tol=2.0*np.finfo(np.float64).eps*ub, r_tol=r_tol)
     # Avoid the initial guess eqpsGuess = eqpsOld, because the power law rate sensitivity has an infinte slope
     # in this case.
     eqpsGuess = 0.5*(lb + ub)
